@@ -1,5 +1,7 @@
 from typing import Type
 
+import pandas as pd
+
 from reamber.base.lists.TimedList import TimedList
 
 
@@ -19,7 +21,7 @@ class ConvertBase:
 
         buffer = target.empty(len(src))
         for to_, from_ in mapping.items():
-            buffer.__setattr__(
-                to_, src.__getattribute__(from_) if isinstance(from_, str) else from_
-            )
+            val = src.__getattribute__(from_) if isinstance(from_, str) else from_
+            # Rows are copied by position: src may carry any row labels
+            buffer.__setattr__(to_, val.to_numpy() if isinstance(val, pd.Series) else val)
         return buffer
